@@ -19,7 +19,7 @@ REPO = os.environ.get("VERIF_REPO", "/repo")
 SEED = int(os.environ.get("VERIF_SEED", "0") or 0)
 # evidence / replays of runs against a scratch tree (VERIF_REPO set by the developer for mutation testing) must not
 # overwrite the records of /repo itself
-OUT = VERIF if os.path.abspath(REPO) == "/repo" else os.path.join(VERIF, ".scratch")
+OUT = VERIF if os.path.abspath(REPO) == "/repo" and not os.environ.get("VERIF_SCRATCH_OUT") else os.path.join(VERIF, ".scratch")
 
 # obligation status values
 DISCHARGED = "discharged"  # solver: unsat (proved for all values of the signature)
